@@ -74,13 +74,21 @@ class Prop(core.Prop):
                     for ext in (False, True):
                         yield {'part': 'weights', 'src': group['src'][::-1] if desc else group['src'],
                                'tgt': tgt, 'extrapolate': ext}
+                    # integer-typed source coordinate (hours, level numbers) with fractional targets
+                    yield {'part': 'weights', 'src': group['src'][::-1] if desc else group['src'],
+                           'tgt': [t_ + 0.5 for t_ in tgt], 'extrapolate': False, 'srcint': True}
+                    yield {'part': 'weights', 'src': group['src'][::-1] if desc else group['src'],
+                           'tgt': [t_ + 0.25 for t_ in tgt], 'extrapolate': True, 'srcint': True}
         elif group['part'] == 'apply':
             n = len(group['src'])
-            tg = [[group['src'][0] + .5, group['src'][-1] - .5], list(group['src']),
-                  [(a + b) / 2. for a, b in zip(group['src'][:-1], group['src'][1:])]]
+            mids = [(a + b) / 2. for a, b in zip(group['src'][:-1], group['src'][1:])]
+            tg = [[group['src'][0] + .5, group['src'][-1] - .5], list(group['src']), mids,
+                  # as many targets as sources, but different ones (square, non-symmetric weights)
+                  [group['src'][0]] + mids]
             for tgt in tg:
                 for form in ('interpDimension', 'interpvars'):
                     yield {'part': 'apply', 'src': group['src'], 'tgt': tgt, 'form': form}
+                    yield {'part': 'apply', 'src': group['src'], 'tgt': tgt, 'form': form, 'cint': True}
         else:
             for to in sigma_grids():
                 yield {'part': 'sigma', 'from': group['from'], 'to': to}
@@ -90,15 +98,17 @@ class Prop(core.Prop):
 
     def run_weights(self, case):
         from PseudoNetCDF.coordutil import getinterpweights
-        xs = np.array(case['src'], 'd')
+        xs = np.array(case['src'], 'i4' if case.get('srcint') else 'd')
         nxs = np.array(case['tgt'], 'd')
         ext = case['extrapolate']
-        st = [h64('w', case['src']), h64('w', case['src'], case['tgt'], ext)]
+        st = [h64('w', case['src']), h64('w', case['src'], case['tgt'], ext, case.get('srcint'))]
         sig = ('getinterpweights', 'extrapolate' if ext else 'clip')
-        scope = dict(extrapolate=ext, nsrc=len(xs), ntgt=len(nxs), desc=bool(xs[0] > xs[-1]))
+        scope = dict(extrapolate=ext, nsrc=len(xs), ntgt=len(nxs), desc=bool(xs[0] > xs[-1]),
+                     srcint=bool(case.get('srcint')))
         vs = []
         try:
             w = np.asarray(getinterpweights(xs, nxs, extrapolate=ext), 'd')
+            xs = xs.astype('d')
         except Exception as e:
             vs.append(viol('raises', sig, '%s: %r for xs=%s nxs=%s' % (type(e).__name__, e, xs, nxs),
                            exc=type(e).__name__, **scope))
@@ -132,7 +142,8 @@ class Prop(core.Prop):
         if xs.size == nxs.size and np.array_equal(xs, nxs):
             if relerr(w, np.eye(xs.size)) > TOL:
                 vs.append(viol('identity', sig, 'xs==nxs=%s weights %s' % (xs, w.tolist()), **scope))
-        nt = None if (xs.size == nxs.size and np.array_equal(xs, nxs)) else h64('w', case['src'], case['tgt'], ext)
+        nt = None if (xs.size == nxs.size and np.array_equal(xs, nxs)) else h64('w', case['src'], case['tgt'], ext,
+                                                                                 case.get('srcint'))
         return result('viol' if vs else 'ok-weights', vs, st, 1, nt, h64(w.tobytes()) if not vs else None)
 
     def run_apply(self, case):
@@ -140,9 +151,9 @@ class Prop(core.Prop):
         from PseudoNetCDF.coordutil import getinterpweights
         src, tgt, form = case['src'], case['tgt'], case['form']
         n = len(src)
-        st = [h64('a', src), h64('a', src, tgt, form)]
+        st = [h64('a', src), h64('a', src, tgt, form, case.get('cint'))]
         vs = []
-        scope = dict(form=form, nsrc=n, ntgt=len(tgt), square=bool(n == len(tgt)))
+        scope = dict(form=form, nsrc=n, ntgt=len(tgt), square=bool(n == len(tgt)), cint=bool(case.get('cint')))
         sig = (form,)
         xs, nxs = np.array(src, 'd'), np.array(tgt, 'd')
         for dname in ('t', 'z', 'x'):
@@ -151,7 +162,7 @@ class Prop(core.Prop):
             lens[dname] = n
             for d in ('t', 'z', 'x'):
                 f.createDimension(d, lens[d])
-            cv = f.createVariable(dname, 'd', (dname,))
+            cv = f.createVariable(dname, 'i' if case.get('cint') else 'd', (dname,))
             cv[:] = xs
             f.setCoords([dname])
             rng = np.arange(lens['t'] * lens['z'] * lens['x'], dtype='d').reshape(lens['t'], lens['z'], lens['x'])
@@ -163,6 +174,9 @@ class Prop(core.Prop):
             v[...] = lin
             o = f.createVariable('other', 'd', tuple(d for d in ('t', 'z', 'x') if d != dname))
             o[...] = 7.
+            # a variable that uses the interpolated dimension twice (averaging kernel, covariance)
+            ak = f.createVariable('AK', 'd', (dname, dname))
+            ak[...] = 1. + 2. * xs[:, None] + 3. * xs[None, :]
             want = (rng % 3 + 1.).take([0], axis=ax) * 0   # placeholder shape
             try:
                 if form == 'interpDimension':
@@ -191,6 +205,13 @@ class Prop(core.Prop):
             if got.shape != want.shape or relerr(got, want) > 1e-10:
                 vs.append(viol('interpolated-values', sig + (dname,), 'dim %s src %s tgt %s: %s expected %s'
                                % (dname, src, tgt, rfile._short(got), rfile._short(want)), dim=dname, **scope))
+            gak = np.asarray(g.variables['AK'][...], 'd')
+            wak = 1. + 2. * cx[:, None] + 3. * cx[None, :]
+            if gak.shape != wak.shape or relerr(gak, wak) > 1e-10:
+                vs.append(viol('interpolated-values', sig + (dname, 'repeated-dimension'),
+                               'AK(%s,%s) src %s tgt %s: %s expected %s' % (dname, dname, src, tgt,
+                                                                           rfile._short(gak), rfile._short(wak)),
+                               dim=dname, repeated=True, **scope))
             if len(g.dimensions[dname]) != len(tgt):
                 vs.append(viol('dimension-length', sig + (dname,), '%d != %d' % (len(g.dimensions[dname]),
                                                                               len(tgt)), dim=dname, **scope))
@@ -199,7 +220,7 @@ class Prop(core.Prop):
         if form == 'interpDimension':
             vs.extend(self.nd_branch(xs, nxs, scope))
         return result('viol' if vs else 'ok-apply', vs, st, 3,
-                      h64('a', src, tgt, form) if list(src) != list(tgt) else None,
+                      h64('a', src, tgt, form, case.get('cint')) if list(src) != list(tgt) else None,
                       h64('ok') if not vs else None)
 
     def nd_branch(self, xs, nxs, scope):
